@@ -13,6 +13,7 @@
   changes, the generated text changes and the corresponding theorem stops checking.
 -/
 import MultiModel.Gen.LayoutGen
+import MultiProofs.TieTactic
 import MultiModel.Iter
 
 namespace Multi.GenTie
@@ -32,63 +33,63 @@ theorem E_intersection_tie (a b : Ext) : E_intersection a b = a.inter b := rfl
 
 /-- the constructor from extensions: the hand model's `ofExts` is the code's mem-initialisers over the tail's layout -/
 theorem L_ctor_tie (e : Ext) (es : List Ext) : L_ctor e (Layout.ofExts es) = Layout.ofExts (e :: es) := by
-  simp [L_ctor, Layout.ofExts]
+  tie_simp [L_ctor, Layout.ofExts]
 
 /-- `layout_t<0>`: built with `nelems_ = 1`, and `num_elements()` returns it — the hand model's base case -/
 theorem L0_tie : L0_num_elements [] L0_ctor_offset L0_ctor_nelems = Layout.numElements [] := rfl
 theorem L0_base_size_tie (o n : Int) : L0_base_size [] o n = Layout.baseSize [] := rfl
 theorem L0_reverse_tie (o n : Int) : L0_reverse [] o n = Layout.reverse [] := by
-  simp [L0_reverse, Layout.reverse, Layout.unrotate]
+  tie_simp [L0_reverse, Layout.reverse, Layout.unrotate]
 
 theorem L_reindex1_tie (d : Dim) (sub : Layout) (i : Int) : L_reindex1 (d :: sub) i = Layout.reindex1 (d :: sub) i := by
-  simp [L_reindex1, Layout.reindex1]
+  tie_simp [L_reindex1, Layout.reindex1]
 
 theorem L_reindex_tie (l : Layout) (i j : Int) (rest : List Int) :
     L_reindex l i (j :: rest) = Layout.reindex l (i :: j :: rest) := by
-  simp [L_reindex, Layout.reindex]
+  tie_simp [L_reindex, Layout.reindex]
 
 theorem L_num_elements_tie (d : Dim) (sub : Layout) : L_num_elements (d :: sub) = Layout.numElements (d :: sub) := by
-  simp [L_num_elements, Layout.numElements]
+  tie_simp [L_num_elements, Layout.numElements]
 
 theorem L_is_empty_tie (d : Dim) (sub : Layout) : L_is_empty (d :: sub) = Layout.isEmpty (d :: sub) := by
-  simp [L_is_empty, Layout.isEmpty]
+  tie_simp [L_is_empty, Layout.isEmpty]
 
 theorem L_size_tie (d : Dim) (sub : Layout) : L_size (d :: sub) = d.size := by
-  simp [L_size, Dim.size]
+  tie_simp [L_size, Dim.size]
 
 theorem L_extension_tie (d : Dim) (sub : Layout) : L_extension (d :: sub) = d.ext := by
-  simp [L_extension, Dim.ext]
+  tie_simp [L_extension, Dim.ext]
 
 theorem L_extension_asserts_tie (d : Dim) (sub : Layout) : L_extension_asserts (d :: sub) = d.extAsserts := by
   simp only [L_extension_asserts, Dim.extAsserts, hd_cons]
   cases h1 : (d.nelems == 0) <;> simp
 
 theorem L_base_size_tie (d : Dim) (sub : Layout) : L_base_size (d :: sub) = Layout.baseSize (d :: sub) := by
-  simp [L_base_size, Layout.baseSize]
+  tie_simp [L_base_size, Layout.baseSize]
 
 theorem L_drop_tie (d : Dim) (sub : Layout) (n : Int) : L_drop (d :: sub) n = Layout.drop (d :: sub) n := by
-  simp [L_drop, Layout.drop]
+  tie_simp [L_drop, Layout.drop]
 
 theorem L_slice_tie (d : Dim) (sub : Layout) (a b : Int) : L_slice (d :: sub) a b = Layout.slice (d :: sub) a b := by
-  simp [L_slice, Layout.slice, Layout.isEmpty]
+  tie_simp [L_slice, Layout.slice, Layout.isEmpty]
 
 theorem L_take_tie (d : Dim) (sub : Layout) (n : Int) : L_take (d :: sub) n = Layout.take (d :: sub) n := by
-  simp [L_take, Layout.take]
+  tie_simp [L_take, Layout.take]
 
 theorem L_halve_tie (d : Dim) (sub : Layout) : L_halve (d :: sub) = Layout.halve (d :: sub) := by
-  simp [L_halve, Layout.halve]
+  tie_simp [L_halve, Layout.halve]
 
 theorem L_scale_tie (d : Dim) (sub : Layout) (num den : Int) :
     L_scale (d :: sub) num den = Layout.scale (d :: sub) num den := by
-  simp [L_scale, Layout.scale]
+  tie_simp [L_scale, Layout.scale]
 
 theorem L_scale_asserts_tie (d : Dim) (sub : Layout) (num den : Int) :
     (L_scale_asserts (d :: sub) num den && Layout.scaleAsserts sub num den) = Layout.scaleAsserts (d :: sub) num den := by
-  simp [L_scale_asserts, Layout.scaleAsserts]
+  tie_simp [L_scale_asserts, Layout.scaleAsserts]
 
 theorem L_transpose_tie (d d1 : Dim) (sub : Layout) :
     L_transpose (d :: d1 :: sub) = Layout.transpose (d :: d1 :: sub) := by
-  simp [L_transpose, Layout.transpose]
+  tie_simp [L_transpose, Layout.transpose]
 
 theorem L_rotate_tie (d : Dim) (sub : Layout) : L_rotate (d :: sub) = Layout.rotate (d :: sub) := by
   cases sub with
@@ -113,55 +114,55 @@ section viewD
 variable (b : Int) (d d1 : Dim) (sub : Layout)
 
 theorem V_at_aux_tie (i : Int) : V_at_aux ⟨b, d :: d1 :: sub⟩ i = View.index ⟨b, d :: d1 :: sub⟩ i := by
-  simp [V_at_aux, View.index]
+  tie_simp [V_at_aux, View.index]
 theorem V_bracket_tie (i : Int) : V_bracket ⟨b, d :: d1 :: sub⟩ i = View.index ⟨b, d :: d1 :: sub⟩ i := by
-  simp [V_bracket, View.index]
+  tie_simp [V_bracket, View.index]
 theorem V_at_aux_asserts_tie (i : Int) : V_at_aux_asserts ⟨b, d :: d1 :: sub⟩ i = View.indexAssert ⟨b, d :: d1 :: sub⟩ i := by
-  simp [V_at_aux_asserts, View.indexAssert]
+  tie_simp [V_at_aux_asserts, View.indexAssert]
 theorem V_bracket_asserts_tie (i : Int) : V_bracket_asserts ⟨b, d :: d1 :: sub⟩ i = View.indexAssert ⟨b, d :: d1 :: sub⟩ i := by
-  simp [V_bracket_asserts, View.indexAssert]
+  tie_simp [V_bracket_asserts, View.indexAssert]
 
 theorem V_reindexed1_tie (i : Int) : V_reindexed1 ⟨b, d :: d1 :: sub⟩ i = View.reindexed1 ⟨b, d :: d1 :: sub⟩ i := by
-  simp [V_reindexed1, View.reindexed1]
+  tie_simp [V_reindexed1, View.reindexed1]
 theorem V_reindexed_tie (v : View) (i j : Int) (rest : List Int) :
     V_reindexed v i (j :: rest) = View.reindexed v (i :: j :: rest) := by
-  simp [V_reindexed, View.reindexed]
+  tie_simp [V_reindexed, View.reindexed]
 
 theorem V_taked_aux_tie (n : Int) : V_taked_aux ⟨b, d :: d1 :: sub⟩ n = View.taked ⟨b, d :: d1 :: sub⟩ n := by
-  simp [V_taked_aux, View.taked, Layout.take]
+  tie_simp [V_taked_aux, View.taked, Layout.take]
 theorem V_dropped_aux_tie (n : Int) : V_dropped_aux ⟨b, d :: d1 :: sub⟩ n = View.dropped ⟨b, d :: d1 :: sub⟩ n := by
-  simp [V_dropped_aux, View.dropped]
+  tie_simp [V_dropped_aux, View.dropped]
 theorem V_sliced_aux_tie (a c : Int) : V_sliced_aux ⟨b, d :: d1 :: sub⟩ a c = View.sliced ⟨b, d :: d1 :: sub⟩ a c := by
-  simp [V_sliced_aux, View.sliced]
+  tie_simp [V_sliced_aux, View.sliced]
 /-- the two bound assertions of `sliced_aux_` are the model's `slicedAsserts`; the third (null base with a non-zero
     pointer offset) constrains the pointer, which the model does not carry -/
 theorem V_sliced_aux_asserts_tie (a c : Int) :
     V_sliced_aux_asserts ⟨b, d :: d1 :: sub⟩ a c =
       (View.slicedAsserts ⟨b, d :: d1 :: sub⟩ a c && ((b != 0) || (a * d.stride - d.offset == 0))) := by
-  simp [V_sliced_aux_asserts, View.slicedAsserts, Bool.and_assoc]
+  tie_simp [V_sliced_aux_asserts, View.slicedAsserts, Bool.and_assoc]
 theorem V_strided_aux_tie (s : Int) : V_strided_aux ⟨b, d :: d1 :: sub⟩ s = View.strided ⟨b, d :: d1 :: sub⟩ s := by
-  simp [V_strided_aux, View.strided]
+  tie_simp [V_strided_aux, View.strided]
 theorem V_range_tie (v : View) (e : Ext) : V_range v e = View.range v e.first e.last := by
-  simp [V_range, View.range, Ext.size]
+  tie_simp [V_range, View.range, Ext.size]
 theorem V_blocked_tie (v : View) (a c : Int) : V_blocked v a c = View.blocked v a c := by
-  simp [V_blocked, View.blocked]
+  tie_simp [V_blocked, View.blocked]
 theorem V_halved_aux_tie (v : View) : V_halved_aux v = View.halved v := by
-  simp [V_halved_aux, View.halved]
+  tie_simp [V_halved_aux, View.halved]
 theorem V_partitioned_aux_tie (n : Int) :
     V_partitioned_aux ⟨b, d :: d1 :: sub⟩ n = View.partitioned ⟨b, d :: d1 :: sub⟩ n := by
-  simp [V_partitioned_aux, View.partitioned]
+  tie_simp [V_partitioned_aux, View.partitioned]
 theorem V_partitioned_aux_asserts_tie (n : Int) :
     V_partitioned_aux_asserts ⟨b, d :: d1 :: sub⟩ n = View.partitionedAsserts ⟨b, d :: d1 :: sub⟩ n := by
-  simp [V_partitioned_aux_asserts, View.partitionedAsserts]
+  tie_simp [V_partitioned_aux_asserts, View.partitionedAsserts]
 theorem V_chunked_aux_tie (c : Int) : V_chunked_aux ⟨b, d :: d1 :: sub⟩ c = View.chunked ⟨b, d :: d1 :: sub⟩ c := by
-  simp [V_chunked_aux, View.chunked, View.size]
+  tie_simp [V_chunked_aux, View.chunked, View.size]
 theorem V_is_flattable_tie : V_is_flattable ⟨b, d :: d1 :: sub⟩ = View.isFlattable ⟨b, d :: d1 :: sub⟩ := by
   simp only [V_is_flattable, View.isFlattable, hd_cons, tl_cons]
   congr
 theorem V_flatted_tie : V_flatted ⟨b, d :: d1 :: sub⟩ = View.flatted ⟨b, d :: d1 :: sub⟩ := by
-  simp [V_flatted, View.flatted]
+  tie_simp [V_flatted, View.flatted]
 theorem V_broadcasted_tie (v : View) (junk : Int) : V_broadcasted v junk = View.broadcasted v junk := by
-  simp [V_broadcasted, View.broadcasted]
+  tie_simp [V_broadcasted, View.broadcasted]
 theorem V_reversed_aux_tie (v : View) : V_reversed_aux v = View.reversed v := rfl
 theorem V_transposed_aux_tie (v : View) : V_transposed_aux v = View.transposed v := rfl
 theorem V_rotated_aux_tie (v : View) : V_rotated_aux v = View.rotated v := rfl
@@ -178,9 +179,9 @@ theorem V_diagonal_aux_tie (e0 e1 : Dim) (rest : Layout)
 
 /-- `begin_aux_` / `end_aux_` build the iterator the model calls `ArrIt.begin` / `ArrIt.end` -/
 theorem V_begin_aux_tie : V_begin_aux ⟨b, d :: d1 :: sub⟩ = (b, d1 :: sub, d.stride) := by
-  simp [V_begin_aux]
+  tie_simp [V_begin_aux]
 theorem V_end_aux_tie : V_end_aux ⟨b, d :: d1 :: sub⟩ = (b + d.nelems, d1 :: sub, d.stride) := by
-  simp [V_end_aux]
+  tie_simp [V_end_aux]
 end viewD
 
 theorem length_rotate (l : Layout) : (Layout.rotate l).length = l.length := by
@@ -194,7 +195,7 @@ theorem length_sliced (v : View) (a b : Int) : (v.sliced a b).lay.length = v.lay
 
 theorem length_paren_rng2 (v : View) (a b a' b' : Int) :
     (v.paren [Arg.rng a b, Arg.rng a' b']).lay.length = v.lay.length := by
-  simp [View.paren, View.unrotated, View.rotated, View.range, Layout.length_unrotate, length_rotate, length_sliced]
+  tie_simp [View.paren, View.unrotated, View.rotated, View.range, Layout.length_unrotate, length_rotate, length_sliced]
 
 /-- `diagonal_aux_` unconditionally: the call syntax with two ranges preserves the number of levels, so the hypothesis of
     `V_diagonal_aux_tie` always holds -/
@@ -212,34 +213,34 @@ section view1
 variable (b : Int) (d : Dim)
 
 theorem V1_at_aux_tie (i : Int) : V1_at_aux ⟨b, [d]⟩ i = View.index ⟨b, [d]⟩ i := by
-  simp [V1_at_aux, View.index]
+  tie_simp [V1_at_aux, View.index]
 theorem V1_at_aux_asserts_tie (i : Int) : V1_at_aux_asserts ⟨b, [d]⟩ i = View.indexAssert ⟨b, [d]⟩ i := by
-  simp [V1_at_aux_asserts, View.indexAssert]
+  tie_simp [V1_at_aux_asserts, View.indexAssert]
 theorem V1_reindexed1_tie (i : Int) : V1_reindexed1 ⟨b, [d]⟩ i = View.reindexed1 ⟨b, [d]⟩ i := by
-  simp [V1_reindexed1, View.reindexed1]
+  tie_simp [V1_reindexed1, View.reindexed1]
 theorem V1_taked_aux_tie (n : Int) : V1_taked_aux ⟨b, [d]⟩ n = View.taked ⟨b, [d]⟩ n := by
-  simp [V1_taked_aux, View.taked]
+  tie_simp [V1_taked_aux, View.taked]
 theorem V1_dropped_aux_tie (n : Int) : V1_dropped_aux ⟨b, [d]⟩ n = View.dropped ⟨b, [d]⟩ n := by
-  simp [V1_dropped_aux, View.dropped, Layout.drop]
+  tie_simp [V1_dropped_aux, View.dropped, Layout.drop]
 theorem V1_sliced_aux_tie (a c : Int) : V1_sliced_aux ⟨b, [d]⟩ a c = View.sliced ⟨b, [d]⟩ a c := by
-  simp [V1_sliced_aux, View.sliced]
+  tie_simp [V1_sliced_aux, View.sliced]
 theorem V1_strided_aux_tie (s : Int) : V1_strided_aux ⟨b, [d]⟩ s = View.strided ⟨b, [d]⟩ s := by
-  simp [V1_strided_aux, View.strided]
+  tie_simp [V1_strided_aux, View.strided]
 /-- D = 1 `range` calls `sliced(front, last)`; the model's `range` is `sliced a (a + (b − a))` (the D > 1 text) -/
 theorem V1_range_tie (v : View) (e : Ext) : V1_range v e = View.range v e.first e.last := by
   have : e.first + (e.last - e.first) = e.last := by omega
   simp [V1_range, View.range, this]
 theorem V1_blocked_tie (v : View) (a c : Int) : V1_blocked v a c = View.blocked v a c := by
-  simp [V1_blocked, View.blocked]
+  tie_simp [V1_blocked, View.blocked]
 theorem V1_halved_aux_tie (v : View) : V1_halved_aux v = View.halved v := by
-  simp [V1_halved_aux, View.halved]
+  tie_simp [V1_halved_aux, View.halved]
 theorem V1_partitioned_aux_tie (n : Int) : V1_partitioned_aux ⟨b, [d]⟩ n = View.partitioned ⟨b, [d]⟩ n := by
-  simp [V1_partitioned_aux, View.partitioned]
+  tie_simp [V1_partitioned_aux, View.partitioned]
 theorem V1_partitioned_aux_asserts_tie (n : Int) :
     V1_partitioned_aux_asserts ⟨b, [d]⟩ n = View.partitionedAsserts ⟨b, [d]⟩ n := by
-  simp [V1_partitioned_aux_asserts, View.partitionedAsserts]
+  tie_simp [V1_partitioned_aux_asserts, View.partitionedAsserts]
 theorem V1_chunked_aux_tie (c : Int) : V1_chunked_aux ⟨b, [d]⟩ c = View.chunked ⟨b, [d]⟩ c := by
-  simp [V1_chunked_aux, View.chunked, View.size]
+  tie_simp [V1_chunked_aux, View.chunked, View.size]
 theorem V1_reversed_aux_tie (v : View) : V1_reversed_aux v = View.reversed v := rfl
 end view1
 
@@ -268,7 +269,7 @@ theorem wrappers_are_the_code (v : View) (a c : Int) (e : Ext) (args : List Arg)
   simp [S_range, View.range, Ext.size]
 
 theorem S_flatted_tie (b : Int) (d d1 : Dim) (sub : Layout) : S_flatted ⟨b, d :: d1 :: sub⟩ = View.flatted ⟨b, d :: d1 :: sub⟩ := by
-  simp [S_flatted, View.flatted]
+  tie_simp [S_flatted, View.flatted]
 
 /-- the call-syntax dispatcher, overload by overload, is `View.paren` consuming one argument; an `intersecting_range`
     (`multi::ALL`, `multi::_ < k`, `k <= multi::_`) is first intersected with the leading extension -/
@@ -291,7 +292,7 @@ theorem paren_dispatch_is_the_code (v : View) (i : Int) (r : Ext) (args : List A
 /-- `multi::ALL` is the clip with the whole index range: the model's `Arg.all` case is the code's `intersecting_range` case -/
 theorem paren_all_is_clip (v : View) (args : List Arg) :
     v.paren (Arg.all :: args) = v.paren (Arg.rng (v.ext.inter ⟨v.ext.first, v.ext.last⟩).first (v.ext.inter ⟨v.ext.first, v.ext.last⟩).last :: args) := by
-  simp [View.paren]
+  tie_simp [View.paren]
 
 theorem W1_paren_tie (b : Int) (d : Dim) (r : Ext) :
     W1_paren_rng ⟨b, [d]⟩ r = View.range ⟨b, [d]⟩ r.first r.last ∧
@@ -421,7 +422,7 @@ theorem V1_reversed_aux_asserts_tie (v : View) : V1_reversed_aux_asserts v = tru
 theorem L_drop_asserts_tie (d : Dim) (sub : Layout) (n : Int) : (L_drop_asserts (d :: sub) n = true ↔ n ≤ d.size) := by
   simp only [L_drop_asserts, hd_cons]; exact decide_eq_true_iff
 theorem L_halve_asserts_tie (d : Dim) (sub : Layout) : L_halve_asserts (d :: sub) = (d.size.tmod 2 == 0) := by
-  simp [L_halve_asserts]
+  tie_simp [L_halve_asserts]
 theorem V_taked_aux_asserts_tie (b : Int) (d d1 : Dim) (sub : Layout) (n : Int) :
     (V_taked_aux_asserts ⟨b, d :: d1 :: sub⟩ n = true ↔ n ≤ d.size) := by
   simp only [V_taked_aux_asserts, hd_cons]; exact decide_eq_true_iff
@@ -432,9 +433,9 @@ theorem V1_taked_aux_asserts_tie (b : Int) (d : Dim) (n : Int) :
     (V1_taked_aux_asserts ⟨b, [d]⟩ n = true ↔ n ≤ d.size) := by
   simp only [V1_taked_aux_asserts, hd_cons]; exact decide_eq_true_iff
 theorem V_chunked_aux_asserts_tie (b : Int) (d d1 : Dim) (sub : Layout) (c : Int) :
-    V_chunked_aux_asserts ⟨b, d :: d1 :: sub⟩ c = (d.size.tmod c == 0) := by simp [V_chunked_aux_asserts]
+    V_chunked_aux_asserts ⟨b, d :: d1 :: sub⟩ c = (d.size.tmod c == 0) := by tie_simp [V_chunked_aux_asserts]
 theorem V1_chunked_aux_asserts_tie (b : Int) (d : Dim) (c : Int) :
-    V1_chunked_aux_asserts ⟨b, [d]⟩ c = (d.size.tmod c == 0) := by simp [V1_chunked_aux_asserts]
+    V1_chunked_aux_asserts ⟨b, [d]⟩ c = (d.size.tmod c == 0) := by tie_simp [V1_chunked_aux_asserts]
 
 /-- the take/drop/chunk assertions are the bounds C20 proves for in-domain arguments (`asserts_silent_take_drop`) -/
 theorem take_drop_assertions_are_the_code (b : Int) (d d1 : Dim) (sub : Layout) (n : Int) :
